@@ -254,6 +254,20 @@ pub fn cells(tier: Tier) -> Vec<CellPlan> {
     c.junk_acks = true;
     v.push(plan(c, if q { 2 } else { 3 }, 2.0));
 
+    // ... with one acknowledgement arriving two rounds late for a single deviation: by then its
+    // message has timed out, and whatever the server does with message indices afterwards, the
+    // late acknowledgement must not be taken for that of a newer message
+    let mut c = mutation_cell("timeout-straggler");
+    c.cfg.timeout_ms = 20;
+    c.cfg.dt_ms = 15;
+    c.oracles.c11_no_resend = false;
+    c.init = vec![Op::Spawn(0, cells::M_A)];
+    c.alphabet = vec![Op::Nop, Op::Mut(0, TA)];
+    c.tick_choice = false;
+    c.straggler_acks = true;
+    c.rounds = 5;
+    v.push(plan(c, 2, 2.0));
+
     // acknowledgement timeout longer than any delay the bound allows (an acknowledgement is at
     // most (1 + d) frames of 10 ms old), but short enough for the periodic clean-up to run several
     // times inside the explored window: a late acknowledgement that is within the timeout
